@@ -8,7 +8,7 @@ from common import (penman, layout, Graph, j_graph, j_tree, j_node, j_triple, py
 
 # ---------------------------------------------------------------- alphabets
 
-VARS = ['a', 'b', 'c', 'd', 'e', 'x1', 'x2', '_', '_2', 'a2']
+VARS = ['a', 'b', 'c', 'd', 'e', 'x1', 'x2', '_', '_2', 'a2', 'b0', 'x01']
 CONCEPTS = ['alpha', 'beta', '_', '_2', 'Chase-01', '"str ing"', '"(x"', 'a', 'b', '7', 'have-mod-91', 'include-91',
             'own-01', 'have-03', 'ôter', '中', '_x', '"q~1"', '-', 'have-org-role-91', '٣', 'İ', '0', '1.5',
             '²-norm', '½life', 'Ⅷ-century', '①a', 'ǅungla', 'ʰa', 'e\u0301cole', 'ẞig', 'ﬁn', '\u0301x', 'ª1', '٣x']
@@ -18,7 +18,11 @@ ROLES_PLAIN = [':ARG0', ':ARG1', ':ARG2', ':op1', ':op2', ':op10', ':mod', ':dom
                ':consist', ':prep-on-behalf', ':prep-out-of', ':prep-out', ':mode', ':year2', ':year', ':prep-on',
                ':instance', ':ARG0xyz', ':modabc', ':polarity-on', ':quant-if',
                ':X', ':X-of', ':Y-of', ':Y', ':a', ':b', ':N1', ':op100', ':op99', ':op20', ':op19', ':ARG2',
-               ':possessor', ':part-of']
+               ':possessor', ':part-of', ':op01', ':op2', ':ARG01', ':snt007', ':snt12']
+# role suffixes written with digits of other scripts (decimal: \d and int() accept them; or not decimal:
+# superscripts, Ethiopic): the Lean model knows ASCII digits only (boundary O24), so these roles are
+# used by the C05 oracle on the real code, never in the correspondence
+ROLES_UNICODE_DIGITS = [':op\u0661', ':op\u0662\u0663', ':op\u0669', ':op\u1369', ':x\u00b2', ':op\u2460']
 CONSTS = ['-', '+', '7', '0', '0.0', '-1.5e3', '"a b"', '"x:y(z)"', '"\\"q\\""', '"C:\\\\"', '"e\\\\\\"f"', 'imperative', 'x~y', '"t~1"',
           '"#h"', '"a #b"', '"see #5, ^ x"', '"~/d"', '"~5"', '"say \\"~\\" x"', 'a/b', 'Ω', '"é "', '""', '1e400', 'true', 'null', 'NaN']
 ALNS = ['~1', '~e.2', '~e.1,2', '~E.3', '~x4', '~01', '~2,03', '~3,1', '~e.5,2,4']
@@ -292,7 +296,7 @@ def reified_tree(rng):
 def gen_metadata(rng):
     md = {}
     for _ in range(rng.choice([0, 0, 0, 1, 1, 2, 3])):
-        k = rng.choice(['snt', 'id', 'tok', 'k-1', 'é', 'snt'])
+        k = rng.choice(['snt', 'id', 'tok', 'k-1', 'é', 'snt', 'snt:', 'k:', 'a:b'])
         v = rng.choice(['', 'hello world', 'a ; b ( c ) " d # e', 'x  y', 'zh 中文', 'l s', 'v\x0bt', 'n\x85l',
                         'with :: inside'[:rng.randint(0, 14)], 'trail ', ' lead', '  two words', '\tx', '\u3000wide', '\xa0nb'])
         v = v.rstrip()
